@@ -30,6 +30,8 @@ var stateOrder = map[string]int{"opening": 0, "open": 1, "closing": 2, "closed":
 
 func init() {
 	register("C03", func(c *core.Ctx, tier string) {
+		baseTransportEffects(c, "C03.14")
+		variadicIndexSafety(c, "C03.15")
 		frameTransportEffects(c, "C03.13")
 		accessorAgreement(c, "C03.12")
 		c03StateWrites(c)
